@@ -4,6 +4,8 @@ package main
 
 import (
 	"bytes"
+	"crypto/aes"
+	"crypto/cipher"
 	"encoding/binary"
 	"fmt"
 	"strconv"
@@ -301,4 +303,172 @@ func sencMalformed(r *hx.Rng, n int, next func() string) {
 		}
 		emit("M", next(), hx.Hex(data), strings.Join(obs, "|"))
 	}
+}
+
+// ---------------------------------------------------------------- how sample fields are signalled
+
+// sigOpts: where a fragment carries sample size / duration / flags: 0 per sample in trun, 1 tfhd default,
+// 2 nowhere in the fragment (trex default of the init segment); flags modes 1/2 use first-sample-flags.
+type sigOpts struct{ size, dur, flags int }
+
+// applySignalling rewrites the tfhd / trun flags of an API-built fragment (all fields per sample in trun) to the
+// minimal signalling an external packager would use against the file's trex (default duration 1024, default
+// flags 0x01010000, default size = the samples' common size).
+func applySignalling(frag *mp4.Fragment, sg sigOpts) {
+	traf := frag.Moof.Traf
+	tfhd, trun := traf.Tfhd, traf.Trun
+	n := len(trun.Samples)
+	if n == 0 {
+		return
+	}
+	switch sg.size {
+	case 1:
+		tfhd.Flags |= 0x10
+		tfhd.DefaultSampleSize = trun.Samples[0].Size
+		trun.Flags &^= mp4.TrunSampleSizePresentFlag
+	case 2:
+		trun.Flags &^= mp4.TrunSampleSizePresentFlag
+	}
+	switch sg.dur {
+	case 1:
+		for i := range trun.Samples {
+			trun.Samples[i].Dur = 1001
+		}
+		tfhd.Flags |= 0x08
+		tfhd.DefaultSampleDuration = 1001
+		trun.Flags &^= mp4.TrunSampleDurationPresentFlag
+	case 2:
+		for i := range trun.Samples {
+			trun.Samples[i].Dur = 1024
+		}
+		trun.Flags &^= mp4.TrunSampleDurationPresentFlag
+	}
+	if sg.flags != 0 {
+		for i := range trun.Samples {
+			trun.Samples[i].Flags = 0x01010000
+		}
+		trun.Samples[0].Flags = 0x02000000
+		trun.Flags &^= mp4.TrunSampleFlagsPresentFlag
+		trun.SetFirstSampleFlags(0x02000000)
+		if sg.flags == 1 {
+			tfhd.Flags |= 0x20
+			tfhd.DefaultSampleFlags = 0x01010000
+		}
+	}
+}
+
+// ---------------------------------------------------------------- is the encrypted file encrypted as specified?
+
+// refEncrypt: Common Encryption of one sample written from ISO/IEC 23001-7 with crypto/aes and crypto/cipher only.
+// cenc: AES-CTR, one key stream over the concatenated protected ranges; cbcs: AES-CBC per protected range,
+// restarted from the constant IV, blocks i with i mod (crypt+skip) < crypt (every full block when 0:0).
+func refEncrypt(scheme string, key, iv []byte, subs []mp4.SubSamplePattern, cb, sb int, clear []byte) []byte {
+	out := append([]byte{}, clear...)
+	block, err := aes.NewCipher(key)
+	must(err)
+	iv16 := make([]byte, 16)
+	copy(iv16, iv)
+	type rng struct{ lo, hi int }
+	var prot []rng
+	if len(subs) == 0 {
+		prot = []rng{{0, len(out)}}
+	} else {
+		pos := 0
+		for _, s := range subs {
+			pos += int(s.BytesOfClearData)
+			hi := pos + int(s.BytesOfProtectedData)
+			if hi > len(out) {
+				hi = len(out)
+			}
+			if pos > len(out) {
+				pos = len(out)
+			}
+			prot = append(prot, rng{pos, hi})
+			pos = hi
+		}
+	}
+	switch scheme {
+	case "cenc":
+		ctr := cipher.NewCTR(block, iv16)
+		for _, p := range prot {
+			ctr.XORKeyStream(out[p.lo:p.hi], out[p.lo:p.hi])
+		}
+	case "cbcs":
+		for _, p := range prot {
+			prev := append([]byte{}, iv16...)
+			d := out[p.lo:p.hi]
+			for i := 0; (i+1)*16 <= len(d); i++ {
+				if (cb == 0 && sb == 0) || (cb+sb > 0 && i%(cb+sb) < cb) {
+					b := d[i*16 : (i+1)*16]
+					for k := range b {
+						b[k] ^= prev[k]
+					}
+					block.Encrypt(b, b)
+					copy(prev, b)
+				}
+			}
+		}
+	}
+	return out
+}
+
+// checkEncrypted: in the file written by the encrypt side every sample of every fragment (located with the trex
+// of the encrypted init, sizes as the fragment signals them) is the reference encryption of the clear sample
+// under the IV / sub-sample map its senc entry carries, and that map is the one Get(AVC|HEVC)ProtectRanges
+// gives for the clear sample (whole sample for audio).  "" when fine.
+func (e *env) checkEncrypted(encRaw []byte, samples [][][]byte, codec byte, scheme string, key []byte) string {
+	f, err := mp4.DecodeFile(bytes.NewReader(encRaw))
+	if err != nil || f.Init == nil || len(f.Segments) != 1 || len(f.Segments[0].Fragments) != len(samples) {
+		return "" // reported by the round trip
+	}
+	trak := f.Init.Moov.Trak
+	sinf := f.Init.Moov.GetSinf(trak.Tkhd.TrackID)
+	if sinf == nil || sinf.Schi == nil || sinf.Schi.Tenc == nil {
+		return "encrypted init has no sinf/schi/tenc"
+	}
+	tenc := sinf.Schi.Tenc
+	for k, fr := range f.Segments[0].Fragments {
+		fss, err := fr.GetFullSamples(f.Init.Moov.Mvex.Trex)
+		if err != nil || len(fss) != len(samples[k]) {
+			return fmt.Sprintf("fragment %d of the encrypted file: %d samples readable, %d expected", k, len(fss), len(samples[k]))
+		}
+		senc := fr.Moof.Traf.Senc
+		if senc == nil || senc.ReadButNotParsed() {
+			return fmt.Sprintf("fragment %d of the encrypted file: no parsed senc", k)
+		}
+		if int(senc.SampleCount) != len(fss) {
+			return fmt.Sprintf("fragment %d: senc describes %d samples, the trun %d", k, senc.SampleCount, len(fss))
+		}
+		for j, fs := range fss {
+			clear := samples[k][j]
+			if len(fs.Data) != len(clear) {
+				return fmt.Sprintf("fragment %d sample %d: %d bytes in the encrypted file, %d clear", k, j, len(fs.Data), len(clear))
+			}
+			iv := tenc.DefaultConstantIV
+			if len(senc.IVs) == len(fss) {
+				iv = senc.IVs[j]
+			}
+			var subs []mp4.SubSamplePattern
+			if len(senc.SubSamples) > j {
+				subs = senc.SubSamples[j]
+			}
+			if codec != 'u' {
+				want, class := e.protectRanges(codec, clear, scheme)
+				if class == "ok" && rangesString(want) != rangesString(subs) {
+					return fmt.Sprintf("fragment %d sample %d: senc sub-sample map %s, protection ranges of the clear sample %s", k, j, rangesString(subs), rangesString(want))
+				}
+			} else if len(subs) != 0 {
+				return fmt.Sprintf("fragment %d sample %d: audio sample with a sub-sample map", k, j)
+			}
+			ref := refEncrypt(scheme, key, iv, subs, int(tenc.DefaultCryptByteBlock), int(tenc.DefaultSkipByteBlock), clear)
+			if !bytes.Equal(ref, fs.Data) {
+				what := "differs from the reference encryption"
+				if bytes.Equal(fs.Data, clear) {
+					what = "is still the clear sample"
+				}
+				return fmt.Sprintf("fragment %d sample %d (%d bytes, map %s): the payload in the encrypted file %s", k, j, len(clear), rangesString(subs), what)
+			}
+		}
+	}
+	return ""
 }
